@@ -215,6 +215,38 @@ def handle (j : Json) : M Json := do
         | .m l => Json.arr (l.map (fun r => Json.arr (r.map Json.bool).toArray)).toArray
       pure (Json.mkObj [("sat", outJ (Poly.ineqsSatisfied p pts)), ("sep", outJ (Poly.separableP p pts)),
                         ("rowsep", outJ (Poly.ineqSeparatePoints p pts))])
+  | "flatten" => do
+      let t ← parseTree (← fld j "t")
+      pure (Json.mkObj [("res", Json.arr ((P.flatIB t).map idBndJ).toArray)])
+  | "leak" => do
+      let t ← parseTree (← fld j "t"); let I ← parseInterp (← fld j "I")
+      pure (Json.mkObj [("t", treeJ (Hist.leak I t))])
+  | "oba" => do
+      let xs ← parseInts (← fld j "xs")
+      pure (Json.mkObj [("ws", intsJ (Prio.oba xs))])
+  | "compress" => do
+      let method ← fldStr j "method"
+      let dim ← fldInt j "dim"
+      let mj ← fld j "m"
+      let parseMat : Json → M Prio.Mat := fun x => do (← jArr x).toList.mapM parseInts
+      let matJ : Prio.Mat → Json := fun m => Json.arr (m.map intsJ).toArray
+      match dim with
+      | 1 => do
+          let r ← parseInts mj
+          match Prio.compress0 method [r] with
+          | some v => pure (Json.mkObj [("r", intsJ v)])
+          | none => throw "bad method"
+      | 2 => do
+          let m ← parseMat mj
+          match Prio.compress2 method (← fldInt j "axis").toNat m with
+          | some v => pure (Json.mkObj [("r", intsJ v)])
+          | none => throw "bad method"
+      | 3 => do
+          let a ← (← jArr mj).toList.mapM parseMat
+          match Prio.compress3 method (← fldInt j "axis").toNat a with
+          | some v => pure (Json.mkObj [("r", matJ v)])
+          | none => throw "bad method"
+      | _ => throw "bad dim"
   | "bridge" => do
       let vars ← (← fldArr j "vars").toList.mapM parseIdBnd
       let dict ← (← fldArr j "dict").toList.mapM (fun x => do
